@@ -211,7 +211,7 @@ class PhaseSpaceGenerator(object):
 
     def cal_max_weight(self):
         if len(self.mass_range) == 0:
-            pass
+            return self.m_wtMax
 
         def f(x):
             return float(-self.get_weight(x))
